@@ -182,6 +182,24 @@ def build_jobs(tier, seed):
     ]:
         jobs.append({'id': len(jobs), 'base': base, 'alts': [(alt, False)],
                      'inputs': ['<' + t + '>' for t in G.all_inputs('ab', 3) + ['a,a', 'a,b', 'a,', 'aab', 'abb', 'bbb']] + ['<', '', '<a']})
+    # bounds given as names in both spellings; a constructor used next to a rule whose parameter has the constructor's name
+    for base, alt in [
+            ('start = r(1, 2)\nr(m, n) = ["<", List("a", min_len=m, max_len=n), ">"]\n', 'start = r(1, 2)\nr(m, n) = ["<", "a"{m,n}, ">"]\n'),
+            ('start = r(2)\nr(n) = ["<", List("a", min_len=n, max_len=n), ">"]\n', 'start = r(2)\nr(n) = ["<", "a"{n}, ">"]\n'),
+            ('start = let n = `2` in ["<", List("a", n, n), ">"]\n', 'start = let n = `2` in ["<", "a"{n}, ">"]\n'),
+            ('start = ["<", Opt("a"), f("b"), ">"]\nf(Opt) = Opt\n', 'start = ["<", "a"?, f("b"), ">"]\nf(Opt) = Opt\n'),
+            ('start = ["<", Some("a"), P("b"), ">"]\nclass P(Some) { x: Some }\n', 'start = ["<", "a"+, P("b"), ">"]\nclass P(Some) { x: Some }\n'),
+    ]:
+        jobs.append({'id': len(jobs), 'base': base, 'alts': [(alt, False)],
+                     'inputs': ['<' + t + '>' for t in G.all_inputs('ab', 3) + ['aab', 'abb']] + ['<', '']})
+    # a bare expression against `start = ...` when the expression begins with a byte literal, a number or inline Python: the
+    # description language reads that first token as a Python statement (recorded finding)
+    for base, alt, inputs in [
+            ('start = 0x41 >> 0x42\n', '0x41 >> 0x42', [b'AB', b'A', b'']),
+            ('start = `1` | "a"\n', '`1` | "a"', ['', 'a']),
+            ('start = None >> "a"\n', 'None >> "a"', ['a', '']),
+    ]:
+        jobs.append({'id': len(jobs), 'base': base, 'alts': [(alt, False)], 'inputs': inputs, 'finding_class': 'bare-expression-python-first'})
     # grouping of un-parenthesised operators
     for i in range(n // 2):
         flat, grouped = flat_chain(rng)
@@ -199,7 +217,8 @@ def run(tier, seed, lean):
     violations, broken = [], []
     for r in results:
         for kind, what in r['bad']:
-            item = {'key': what, 'sig': by_id[r['id']]['base'], 'kind': kind, 'base': by_id[r['id']]['base'], 'what': what, 'seed': seed}
+            item = {'key': what, 'sig': by_id[r['id']]['base'], 'kind': kind, 'base': by_id[r['id']]['base'], 'what': what, 'seed': seed,
+                    'finding_class': by_id[r['id']].get('finding_class', 'none')}
             (broken if kind == 'harness' else violations).append(item)
     # the base spellings against the Lean model
     mjobs = [{'id': k, 'text': j['base'], 'cases': [(0, t) for t in j['inputs'][:20]], 'entries': ['__module__'], 'fuel': 200,
